@@ -191,3 +191,21 @@ mut("c15-bounds-keep-early-return", "C15", "KEEP", "hclsyntax/structure.go",
     "\tif len(b.Blocks) >= 1 {\n\t\tblocks := b.Blocks\n\t\texample := blocks[0]\n", "")
 mut("c15-bounds-json-scan-guard", "C15", "MUST", "json/scanner.go",
     "\t\tfirst := buf[0]\n", "\t\tfirst := buf[0]\n\t\t_ = buf[1]\n", "bounded.index")
+mut("c15-bounds-var-scan-leq", "C15", "MUST", "json/scanner.go",
+    "\tfor i = 0; i < len(buf); i++ {\n\t\tb := buf[i]\n\t\tswitch {\n\t\tcase isAlphabetical(b) || b == '_':",
+    "\tfor i = 0; i <= len(buf); i++ {\n\t\tb := buf[i]\n\t\tswitch {\n\t\tcase isAlphabetical(b) || b == '_':", "bounded.index")
+mut("c15-bounds-var-hangs-off", "C15", "MUST", "hclwrite/parser.go",
+    "\t\tif i >= len(toks) {\n\t\t\t// The range \"hangs off\" the end of the token sequence\n\t\t\treturn start, len(toks)\n\t\t}\n",
+    "\t\tif i > len(toks) {\n\t\t\t// The range \"hangs off\" the end of the token sequence\n\t\t\treturn start, len(toks)\n\t\t}\n", "bounded.index")
+mut("c15-bounds-var-after-token", "C15", "MUST", "hclwrite/format.go",
+    "\t\t\tif i < (len(line.lead) - 1) {\n\t\t\t\tafter = line.lead[i+1]",
+    "\t\t\tif i < len(line.lead) {\n\t\t\t\tafter = line.lead[i+1]", "bounded.index")
+mut("c15-bounds-var-keep-restated", "C15", "KEEP", "hclwrite/format.go",
+    "\t\t\tif i < (len(line.lead) - 1) {\n\t\t\t\tafter = line.lead[i+1]",
+    "\t\t\tif next := i + 1; next <= len(line.lead)-1 {\n\t\t\t\tafter = line.lead[next]", "")
+mut("c15-bounds-var-param-guard", "C15", "MUST", "hclsyntax/expression.go",
+    "\t\t\ti := terr.Index\n\t\t\tvar param *function.Parameter\n\t\t\tif i < len(params) {",
+    "\t\t\ti := terr.Index\n\t\t\tvar param *function.Parameter\n\t\t\tif i <= len(params) {", "bounded.index")
+mut("c15-bounds-var-keep-flipped", "C15", "KEEP", "hclsyntax/expression.go",
+    "\t\t\ti := terr.Index\n\t\t\tvar param *function.Parameter\n\t\t\tif i < len(params) {\n\t\t\t\tparam = &params[i]\n\t\t\t} else {\n\t\t\t\tparam = varParam\n\t\t\t}",
+    "\t\t\ti := terr.Index\n\t\t\tparam := varParam\n\t\t\tif n := len(params); n > i {\n\t\t\t\tparam = &params[i]\n\t\t\t}", "")
